@@ -28,6 +28,10 @@
 #include <errno.h>
 #include <sys/wait.h>
 #include <sys/mman.h>
+#ifdef VH_COV   /* coverage build (bin/vcoverage): children leave through _exit, which would lose their counters */
+void __gcov_dump(void);
+#define _exit(x) do { __gcov_dump(); (_exit)(x); } while (0)
+#endif
 
 static int vh_shard = 0, vh_nshards = 1;
 static int vh_thorough = 0;
